@@ -15,7 +15,7 @@ import (
 )
 
 func genCrash(g *Gen) {
-	nHist := g.Scale(12, 150)
+	nHist := g.Scale(12, 60)
 	for h := 0; h < nHist; h++ {
 		bg := h%3 == 2
 		rw := newLineRewriter(g, "crash")
@@ -51,7 +51,7 @@ func genCrash(g *Gen) {
 			l.start(1 + g.Rng.Intn(2))
 		}
 		flush()
-		steps := 6 + g.Rng.Intn(g.Scale(10, 24))
+		steps := 6 + g.Rng.Intn(g.Scale(10, 16))
 		boots := 0
 		lazy := g.Rng.Intn(3) == 0
 		imp := ""     // external wallet prepared / imported
@@ -164,8 +164,8 @@ func genCrash(g *Gen) {
 		if !bg {
 			rw.emit("commits", "commits")
 		}
-		if g.Rng.Intn(g.Scale(5, 3)) == 0 {
-			rw.emit("crashall-2", fmt.Sprintf("crashall 2 %d", g.Scale(5, 3)))
+		if g.Rng.Intn(g.Scale(5, 6)) == 0 {
+			rw.emit("crashall-2", fmt.Sprintf("crashall 2 %d", g.Scale(5, 4)))
 		} else {
 			rw.emit("crashall-1", "crashall 1 1")
 		}
